@@ -198,13 +198,17 @@ def run_impl(case):
         def on_bar(self, snapshot):
             obs["live"].append(sorted(ident[id(t)] for t in self.triggers))
 
+        def finalize(self):
+            # the triggers still installed when the loop has ended (Actuator.run hands the list back as it found it afterwards)
+            obs["left"] = [ident[id(t)] for t in self.triggers]
+
     a.strategy = S()
     try:
         a.run(print_result=False)
     except Exception as e:  # noqa: BLE001
         obs["err"] = type(e).__name__
         obs["where"] = culprit(e)
-    obs["left"] = [ident[id(t)] for t in a.strategy.triggers]
+    obs.setdefault("left", None)
     return obs
 
 
